@@ -13,6 +13,7 @@ import QiVerif.Driver.C06
 import QiVerif.Driver.C04
 import QiVerif.Driver.C13
 import QiVerif.Driver.C14
+import QiVerif.Driver.C15
 open QiVerif.Driver
 
 /-- parameters handed over by ./check from the regenerated constants -/
@@ -28,6 +29,7 @@ structure DState where
   sv : C04.St := {}
   sg : C13.St := {}
   pr : C14.St := {}
+  sd : C15.St := {}
 
 def dispatch (p : Params) (st : DState) (line : String) : DState × String :=
   let ws := words line
@@ -51,6 +53,9 @@ def dispatch (p : Params) (st : DState) (line : String) : DState × String :=
     else if op.startsWith "sv." || op.startsWith "c04." then
       let (s', out) := C04.run st.sv ws
       ({ st with sv := s' }, out)
+    else if op.startsWith "sd." then
+      let (s', out) := C15.run st.sd ws
+      ({ st with sd := s' }, out)
     else if op.startsWith "pr." then
       let (s', out) := C14.run st.pr ws
       ({ st with pr := s' }, out)
